@@ -296,6 +296,16 @@ def _variants():
 
     MP = "permuta/patterns/meshpatt.py"
     return [
+        V("simul-excluded-rows-shifted", replace_expr("permuta/patterns/meshpatt.py", "MeshPatt.north_east_simul_shading_lemma_conditions", "(pos1[1], pos1[1] - 1)", "(pos1[1], pos2[1] - 1)"), "fire", "C18-N2"),
+        V("simul-excluded-rows-above", replace_expr("permuta/patterns/meshpatt.py", "MeshPatt.north_east_simul_shading_lemma_conditions", "(pos1[1], pos1[1] - 1)", "(pos1[1], pos1[1] + 1)"), "fire", "C18-N2"),
+        V("simul-excluded-columns-shifted", replace_expr("permuta/patterns/meshpatt.py", "MeshPatt.north_east_simul_shading_lemma_conditions", "(pos1[0], pos1[0] - 1)", "(pos1[0], pos1[0] + 1)"), "fire", "C18-N2"),
+        V("simul-west-cells-wrong", replace_expr("permuta/patterns/meshpatt.py", "MeshPatt.north_east_simul_shading_lemma_conditions", "(pos2[0] - 1, pos2[1])", "(pos2[0] - 1, pos2[1] - 1)"), "fire", "C18-N2"),
+        V("simul-vertical-direction", replace_expr("permuta/patterns/meshpatt.py", "MeshPatt.north_east_simul_shading_lemma_conditions", "(pos1[0] - 1, y) in self.shading and (pos1[0], y) not in self.shading", "(pos1[0], y) in self.shading and (pos1[0] - 1, y) not in self.shading"), "fire", "C18-N2"),
+        V("simul-adjacency-above", replace_expr("permuta/patterns/meshpatt.py", "MeshPatt.north_east_simul_shading_lemma_conditions", "pos1[1] - 1 != pos2[1]", "pos1[1] + 1 != pos2[1]"), "fire", "C18-N2"),
+        V("simul-point-wrong-value", replace_expr("permuta/patterns/meshpatt.py", "MeshPatt.north_east_simul_shading_lemma_conditions", "self.pattern[pos1[0] - 1] != pos1[1] - 1", "self.pattern[pos1[0] - 1] != pos1[1]"), "fire", "C18-N2"),
+        V("simul-horizontal-alike", replace_expr("permuta/patterns/meshpatt.py", "MeshPatt.north_east_simul_shading_lemma_conditions", "((x, pos1[1]) in self.shading) != ((x, pos2[1]) in self.shading)", "((x, pos1[1]) in self.shading) == ((x, pos2[1]) in self.shading)"), "fire", "C18-N2"),
+        V("simul-rows-via-pos2", replace_expr("permuta/patterns/meshpatt.py", "MeshPatt.north_east_simul_shading_lemma_conditions", "(pos1[1], pos1[1] - 1)", "(pos2[1], pos1[1])"), "silent"),
+        V("simul-west-via-pos1", replace_expr("permuta/patterns/meshpatt.py", "MeshPatt.north_east_simul_shading_lemma_conditions", "(pos2[0] - 1, pos2[1])", "(pos1[0] - 1, pos1[1] - 1)"), "silent"),
         V("canshade-cell-rotated-other-way", replace_stmt(MP, "MeshPatt.can_shade", "pos = (pos[1], n - pos[0])", "pos = (n - pos[1], pos[0])"), "fire", "C18-R1"),
         V("canshade-cell-n-minus-1", replace_stmt(MP, "MeshPatt.can_shade", "pos = (pos[1], n - pos[0])", "pos = (pos[1], n - 1 - pos[0])"), "fire", "C18-R1"),
         V("canshade-three-rotations", replace_expr(MP, "MeshPatt.can_shade", "range(4)", "range(3)"), "fire", "C18-R1"),
@@ -545,3 +555,176 @@ def run(ctx: Ctx) -> None:  # noqa: F811
 
 FLOORS["C18-P1"] = 2
 EXPLANATION = EXPLANATION.replace("NOT decided: _add_point_base_shading's splitting,", "(e) point insertion splits columns, rows and values around the new lines (P1). NOT decided:")
+
+
+# ------------------------------------------------------------------ N2: the simultaneous (two-cell) shading lemma
+
+
+def rule_n2(ctx: Ctx) -> None:
+    """Simultaneous Shading Lemma (Claesson, Tenner, Ulfarsson): let the point be (A-1, B-1), pos1 = (A, B) the cell
+    north-east of it and pos2 = (A, B-1) the cell south-east of it.  Both cells may be shaded if
+      (1) the point is there, (2) pos2 is directly below pos1, (3) neither cell is shaded,
+      (4) the two cells west of the point, (A-1, B) and (A-1, B-1), are unshaded,
+      (5) across the vertical line through the point, in every row except the two rows next to the point
+          (B and B-1), a shaded cell on the left has a shaded cell on the right,
+      (6) across the horizontal line through the point, in every column except the two next to the point
+          (A and A-1), the cells above and below are shaded alike."""
+    from .c17 import lin
+
+    f = ctx.repo.need_method("MeshPatt", "north_east_simul_shading_lemma_conditions")
+    if len(f.params) != 3:
+        raise AnalysisError(f"{f.where}: signature not recognised")
+    p1, p2 = f.params[1], f.params[2]
+    rets = [st for st in f.body if isinstance(st, ast.Return)]
+    if len(rets) != 1:
+        raise AnalysisError(f"{f.where}: single return expected")
+    v = rets[0].value
+    if not (isinstance(v, ast.UnaryOp) and isinstance(v.op, ast.Not) and isinstance(v.operand, ast.Call) and unparse(v.operand.func) == "any" and len(v.operand.args) == 1
+            and isinstance(v.operand.args[0], (ast.Tuple, ast.List))):
+        raise AnalysisError(f"{f.where}: `not any((...))` over a display of conditions expected")
+    conds = v.operand.args[0].elts
+
+    class Unknown(Exception):
+        pass
+
+    def lcanon(e: ast.AST, var: Optional[str]) -> str:
+        class Sub(ast.NodeTransformer):
+            def visit_Subscript(self, node: ast.Subscript):
+                t = unparse(node)
+                if t in (f"{p1}[0]", f"{p2}[0]"):
+                    return ast.Name(id="A", ctx=ast.Load())
+                if t == f"{p1}[1]":
+                    return ast.Name(id="B", ctx=ast.Load())
+                if t == f"{p2}[1]":
+                    return ast.BinOp(left=ast.Name(id="B", ctx=ast.Load()), op=ast.Sub(), right=ast.Constant(value=1))
+                return self.generic_visit(node)
+
+        import copy
+
+        e2 = Sub().visit(copy.deepcopy(e))
+        le = lin(e2)
+        if le is None:
+            raise Unknown(unparse(e))
+        if var is not None and var in le:
+            le["v"] = le.pop(var)
+        if not set(le) <= {"A", "B", "v", ""}:
+            raise Unknown(unparse(e))
+        return "+".join(f"{c}*{k}" if k else str(c) for k, c in sorted(le.items())) or "0"
+
+    def cell(node: ast.AST, var: Optional[str]):
+        if isinstance(node, ast.Name) and node.id == p1:
+            return (lcanon(ast.parse(f"{p1}[0]", mode="eval").body, var), lcanon(ast.parse(f"{p1}[1]", mode="eval").body, var))
+        if isinstance(node, ast.Name) and node.id == p2:
+            return (lcanon(ast.parse(f"{p2}[0]", mode="eval").body, var), lcanon(ast.parse(f"{p2}[1]", mode="eval").body, var))
+        if isinstance(node, ast.Tuple) and len(node.elts) == 2:
+            return (lcanon(node.elts[0], var), lcanon(node.elts[1], var))
+        raise Unknown(unparse(node))
+
+    def canon(node: ast.AST, var: Optional[str] = None):
+        if isinstance(node, ast.BoolOp):
+            return ("or" if isinstance(node.op, ast.Or) else "and", frozenset(canon(x, var) for x in node.values))
+        if isinstance(node, ast.UnaryOp) and isinstance(node.op, ast.Not):
+            return ("not", canon(node.operand, var))
+        if isinstance(node, ast.Compare) and len(node.ops) == 1:
+            op, l, r = node.ops[0], node.left, node.comparators[0]
+            if isinstance(op, (ast.In, ast.NotIn)) and unparse(r) == "self.shading":
+                return ("in" if isinstance(op, ast.In) else "notin", cell(l, var))
+            if isinstance(op, (ast.NotEq, ast.Eq)) and isinstance(l, ast.Compare) and isinstance(r, ast.Compare):
+                return ("differ" if isinstance(op, ast.NotEq) else "alike", frozenset((canon(l, var), canon(r, var))))
+            if isinstance(l, ast.Subscript) and unparse(l.value) == "self.pattern" and isinstance(op, (ast.NotEq, ast.Eq)):
+                return ("pattern-ne" if isinstance(op, ast.NotEq) else "pattern-eq", lcanon(l.slice, var), lcanon(r, var))
+            sym = {ast.Eq: "==", ast.NotEq: "!=", ast.Lt: "<", ast.LtE: "<=", ast.Gt: ">", ast.GtE: ">="}.get(type(op))
+            if sym:
+                return ("cmp", sym, lcanon(l, var), lcanon(r, var), unparse(node))
+        if isinstance(node, ast.Call) and unparse(node.func) in ("any", "all") and len(node.args) == 1 and isinstance(node.args[0], ast.GeneratorExp):
+            ge = node.args[0]
+            if len(ge.generators) == 1 and isinstance(ge.generators[0].target, ast.Name):
+                g = ge.generators[0]
+                x = g.target.id
+                rng = unparse(g.iter)
+                if rng not in ("range(len(self.pattern) + 1)", "range(len(self) + 1)", "range(0, len(self.pattern) + 1)", "range(0, len(self) + 1)"):
+                    raise Unknown(rng)
+                excl = None
+                if len(g.ifs) == 1 and isinstance(g.ifs[0], ast.Compare) and isinstance(g.ifs[0].ops[0], ast.NotIn) and unparse(g.ifs[0].left) == x \
+                        and isinstance(g.ifs[0].comparators[0], (ast.Tuple, ast.List, ast.Set)):
+                    excl = frozenset(lcanon(e, x) for e in g.ifs[0].comparators[0].elts)
+                elif g.ifs:
+                    raise Unknown(unparse(g.ifs[0]))
+                return ("exists" if unparse(node.func) == "any" else "forall", canon(ge.elt, x), excl)
+        raise Unknown(unparse(node)[:60])
+
+    A, Am, B, Bm = "1*A", "-1+1*A", "1*B", "-1+1*B"
+    want = {
+        "the two cells are unshaded": ("or", frozenset({("in", (A, B)), ("in", (A, Bm))})),
+        "the cells west of the point are unshaded": ("or", frozenset({("in", (Am, B)), ("in", (Am, Bm))})),
+        "vertical line: left shaded => right shaded, except in the two rows next to the point": ("exists", ("and", frozenset({("in", (Am, "1*v")), ("notin", (A, "1*v"))})), frozenset({B, Bm})),
+        "horizontal line: cells above and below shaded alike, except in the two columns next to the point": ("exists", ("differ", frozenset({("in", ("1*v", B)), ("in", ("1*v", Bm))})), frozenset({A, Am})),
+    }
+    got = []
+    adjacency = point = 0
+    for c in conds:
+        raw = unparse(c)
+        # (2) adjacency: recognised before the substitution pos2 := (A, B-1), which makes it a tautology
+        if p1 in raw and p2 in raw and isinstance(c, ast.BoolOp) and isinstance(c.op, ast.Or) and all(isinstance(x, ast.Compare) and isinstance(x.ops[0], ast.NotEq) for x in c.values):
+            try:
+                sides = [(lcanon(x.left, None), lcanon(x.comparators[0], None)) for x in c.values]
+            except Unknown as exc:
+                raise AnalysisError(f"{f.where}: condition `{raw[:60]}` not recognised ({exc})")
+            if all(a == b for a, b in sides) and {a for a, _ in sides} in ({A, Bm}, {A, B}):
+                adjacency += 1
+                continue
+            ctx.violation("C18-N2", f, c, f"`{raw}` does not say that {p2} is the cell directly below {p1} (same column, one row lower)")
+            return
+        try:
+            t = canon(c)
+        except Unknown as exc:
+            raise AnalysisError(f"{f.where}: condition `{raw[:70]}` not recognised ({exc})")
+        # (1) the point
+        if t[0] == "or" and any(x[0] == "pattern-ne" for x in t[1]):
+            pn = [x for x in t[1] if x[0] == "pattern-ne"]
+            edge = [x for x in t[1] if x[0] == "cmp"]
+            if len(t[1]) == 2 and pn[0][1:] == (Am, Bm) and len(edge) == 1 and edge[0][1:4] in (("==", A, "0"), ("<", Am, "0"), ("<", A, "1"), ("<=", A, "0"), ("<=", Am, "-1")):
+                point += 1
+                continue
+            ctx.violation("C18-N2", f, c, f"`{raw}` does not test that the point south-west of {p1} is (pos1[0]-1, pos1[1]-1)")
+            return
+        got.append((t, c))
+    if adjacency != 1 or point != 1:
+        ctx.violation("C18-N2", f, rets[0], f"conditions on the point ({point}) / on the two cells being stacked ({adjacency}) are missing or repeated")
+        return
+    bad = False
+    remaining = dict(want)
+    for t, c in got:
+        hit = [k for k, w in remaining.items() if w == t]
+        if hit:
+            ctx.ok("C18-N2", f.where, hit[0], c, f)
+            del remaining[hit[0]]
+            continue
+        # same kind, other cells?
+        kind = [k for k, w in want.items() if w[0] == t[0] and (t[0] != "exists" or w[1][0] == t[1][0] or {w[1][0], t[1][0]} == {"differ", "alike"})]
+        if kind:
+            ctx.violation("C18-N2", f, c, f"side condition `{unparse(c)[:110]}` is not the lemma's condition \"{kind[0]}\" (with the point at ({p1}[0]-1, {p1}[1]-1), {p1} = (A, B), {p2} = (A, B-1))")
+            bad = True
+        else:
+            raise AnalysisError(f"{f.where}: extra condition `{unparse(c)[:70]}` not part of the lemma; not decided")
+    if bad:
+        return
+    if remaining:
+        ctx.violation("C18-N2", f, rets[0], f"the lemma's condition(s) {sorted(remaining)} are not checked")
+        return
+    ctx.ok("C18-N2", f.where, "the point is present and the two cells are stacked east of it", rets[0], f)
+    asserts = [st for st in f.body if isinstance(st, ast.Assert)]
+    _ = asserts
+
+
+_OLD_RUN_N2 = run
+
+
+def run(ctx: Ctx) -> None:  # noqa: F811
+    _OLD_RUN_N2(ctx)
+    ctx.run(rule_n2, ctx)
+
+
+FLOORS["C18-N2"] = 5
+EXPLANATION = EXPLANATION.replace("NOT decided: the simultaneous (two-cell) side conditions,", "(c') the two-cell side conditions are the published Simultaneous Shading Lemma's six conditions, compared after "
+                                  "expressing every cell relative to the point (N2). NOT decided:")
